@@ -45,11 +45,15 @@ def _u(name, src, allfns, define, fns, pool, nev, quick=0, **kw):
 def _u1(name, src, allfns, define, fns, pool, nev, unwind=0, timeout=1800, elt=16, keep=(), tier="quick", covers=2, prefix=3, short=False, script=None, cap=4, **kw):
     _closed_world(fns, pool, prefix)
     unwind = unwind or max(max(len(x) for x in pool) + 3, prefix + 2)
-    return Unit(name="C13.parse_" + name, src=src, defines=[define, _pool(*pool), "VP_MAX_EVENTS=%d" % nev, "VP_GLIB_FIXED_CAP=%d" % cap, "VP_STR_PREFIX=%d" % prefix] + (["VP_SHORT"] if short else []) + (["VP_SCRIPT=" + script] if script else []) + ["VP_T_" + f for f in fns], functions=fns, props=kw.pop("props", ["C13", "C14"]), no_dfcc=True, kind="bounded",
-                bound=(("event streams whose event types and key scalars follow the well-formed sequence of one record (%d events) with arbitrary value scalars, a parse failure possible at every point;" if script else "event streams of at most %d events of any type (a parse failure possible at every point);") % nev) +
-                      " scalar values from a pool of %d strings (every key the function compares against + sample values); lists hold at most %d elements" % (len(pool), cap),
-                remove_bodies=[f for f in allfns if f not in fns and f not in keep], stub_srcs=["units/C13/parser_stubs.c"], extra_flags=["--nondet-static", "--unwind", str(unwind), "--unwindset", "vp_bytes.0:%d,%s.0:%d,%s.1:%d" % (elt + 1, fns[0], nev + 2, fns[0], nev + 2)], covers=covers, min_obligations=10, timeout=timeout, tier=tier,
-                stubbed_contracts=["libyaml event API (units/C13/parser_model.h)", "strtol (stubs/vp_strtol.h)", "GLib GString/GArray (stubs/vp_glib.h)"], **kw)
+    def mk(n_ev):
+        return dict(defines=[define, _pool(*pool), "VP_MAX_EVENTS=%d" % n_ev, "VP_GLIB_FIXED_CAP=%d" % cap, "VP_STR_PREFIX=%d" % prefix] + (["VP_SHORT"] if short else []) + (["VP_SCRIPT=" + script] if script else []) + ["VP_T_" + f for f in fns],
+                    bound=(("event streams whose event types and key scalars follow the well-formed sequence of one record (%d events) with arbitrary value scalars, a parse failure possible at every point;" if script else "event streams of at most %d events of any type (a parse failure possible at every point);") % n_ev) +
+                          " scalar values from a pool of %d strings (every key the function compares against + sample values); lists hold at most %d elements" % (len(pool), cap),
+                    extra_flags=["--nondet-static", "--unwind", str(unwind), "--unwindset", "vp_bytes.0:%d,%s.0:%d,%s.1:%d" % (elt + 1, fns[0], n_ev + 2, fns[0], n_ev + 2)])
+    deep = dict(mk(nev + 3), timeout=6000) if (tier == "quick" and not script) else None
+    return Unit(name="C13.parse_" + name, src=src, functions=fns, props=kw.pop("props", ["C13", "C14"]), no_dfcc=True, kind="bounded",
+                remove_bodies=[f for f in allfns if f not in fns and f not in keep], stub_srcs=["units/C13/parser_stubs.c"], covers=covers, min_obligations=10, timeout=timeout, tier=tier, deep=deep,
+                stubbed_contracts=["libyaml event API (units/C13/parser_model.h)", "strtol (stubs/vp_strtol.h)", "GLib GString/GArray (stubs/vp_glib.h)"], **mk(nev), **kw)
 _TRK = "units/C13/parser_track.c"
 _TRN = "units/C13/parser_train.c"
 _BRD = "units/C13/parser_board.c"
